@@ -42,8 +42,8 @@ NEG_CONTROLS = [
 ]
 
 PARAMS = {
-    "quick": dict(stores=0, schedules=200, stress=["-runs", 4, "-reloads", 25, "-max-responses", 1500],
-                  hammer=["-reloads", 1500, "-max-responses", 30000],
+    "quick": dict(stores=0, schedules=200, stress=["-runs", 3, "-reloads", 25, "-max-responses", 1500],
+                  hammer=["-reloads", 1000, "-max-responses", 24000],
                   race_stress=["-runs", 2, "-reloads", 10, "-max-responses", 500],
                   race_hammer=["-reloads", 300, "-max-responses", 4000, "-workers", 6]),
     "thorough": dict(stores=0, schedules=5000, stress=["-runs", 24, "-reloads", 60, "-max-responses", 4000],
@@ -211,7 +211,12 @@ def corrupt_conc(lines):
     out, n = [], 0
     expected = 0
     plan = None
+    plans = 0
     for e in lines:
+        if e["ev"] == "plan":
+            plans += 1
+            if plans > 2:  # two runs are enough
+                break
         e = copy.deepcopy(e)
         if e["ev"] == "plan":
             plan = e
